@@ -235,17 +235,27 @@ func maintenanceHelpers(p *Program, sf *stateFlow) map[*ssa.Function]bool {
 		}
 		onlyPrune := true
 		any := false
+		consider := func(e *sfEvent) {
+			any = true
+			if e.Kind == "lease-delete" {
+				return
+			}
+			if e.Kind != "delete" || e.From == ssTop || e.From&^patPrune.From != 0 {
+				onlyPrune = false
+			}
+		}
 		for g := range p.Reach(f) {
 			for _, e := range evByFn[g] {
-				if !strings.Contains(e.Chain, f.Name()) {
-					continue
+				if strings.Contains(e.Chain, f.Name()) {
+					consider(e)
 				}
-				any = true
-				if e.Kind == "lease-delete" {
-					continue
-				}
-				if e.Kind != "delete" || e.From == ssTop || e.From&^patPrune.From != 0 {
-					onlyPrune = false
+			}
+		}
+		// events of f's body where f has been expanded into an operation
+		for i := range sf.Events {
+			for _, h := range p.InlinedFrom(sf.Events[i].Instr) {
+				if h == f {
+					consider(&sf.Events[i])
 				}
 			}
 		}
@@ -301,7 +311,17 @@ func checkFailedOpEffectFree(c *Ctx, rule string, rootFilter func(string) bool) 
 		}
 		var muts []mp
 		seenIns := map[ssa.Instruction]bool{}
+		fn := p.View(fn) // helpers of the package are part of the operation
 		for _, e := range direct[fn] {
+			inMaint := false
+			for _, h := range p.InlinedFrom(e.Instr) {
+				if maint[h] {
+					inMaint = true
+				}
+			}
+			if inMaint {
+				continue
+			}
 			if e.Root == fn.Name() && !seenIns[e.Instr] {
 				seenIns[e.Instr] = true
 				muts = append(muts, mp{e.Instr, e.Kind + "->" + e.ToStr})
